@@ -234,10 +234,14 @@ async def scenario(world: WorldA) -> None:
             res.probe("cmd_raised")
 
     cycle_stats: List[Dict[str, Any]] = []
+    reset_windows: List[Any] = []          # [t0, t1] of every user reset made by the harness
 
     async def cycles_body() -> None:
         for c in range(cfg.get("cycles", 5)):
+            w0 = [world.now(), None]
+            reset_windows.append(w0)
             await man.async_reset()
+            w0[1] = world.now()
             await asyncio.sleep(GRACE)
             try:
                 await sysm.wait_connected(one_update=False, cap=400)
@@ -269,12 +273,15 @@ async def scenario(world: WorldA) -> None:
         cur0 = sysm.spa
         if cur0 is not None and getattr(cur0, "_protocol", None) is None and man.spa_state.name == "CONNECTING":
             snap["spa_without_protocol"] = True      # judged when the reset actually starts running
+        w0 = [world.now(), None]
+        reset_windows.append(w0)
         try:
             if inj["kind"] == "reset":
                 await man.async_reset()
             else:
                 await man.async_set_spa_info(SPA_IP, SPA_ID, SPA_NAME)
             state["reset_done"] = world.now()
+            w0[1] = world.now()
         except asyncio.CancelledError:
             raise
         except Exception as e:
@@ -353,6 +360,10 @@ async def scenario(world: WorldA) -> None:
         sig = "endpoint-leak:" + "+".join(who)
         if snap.get("spa_without_protocol") and who == ["spa"] and inj["kind"] != "exit":
             sig = "endpoint-leak:spa:reset-while-connect-awaits-its-endpoint"
+        elif who == ["spa"] and all(any(a <= t.created_at <= (b if b is not None else 1e18) and (b is None or b - a > 1e-6) for a, b in reset_windows) for t in open_tr):
+            # history signature: every leaked endpoint belongs to a connection the pump started WHILE a user reset was suspended in the
+            # client's handler; the reset then overwrote the manager's reference to it
+            sig = "endpoint-leak:spa:connection-started-during-suspended-reset"
         world.note(PROP, "endpoint-leak", f"{len(open_tr)} endpoint(s) never closed after exit: {[t.label for t in open_tr]} ({ctx})", sig=sig)
     # late effects after exit: old timers and late datagrams must not reach any observer or deliver any event
     n_calls = len(watcher.calls)
